@@ -77,9 +77,24 @@ pub struct Recorded {
 
 /// drive the real encoder the way bmc (entry 0) or pdr (entry 1) does
 pub fn record(ctx: &mut Context, sys: &TransitionSystem, entry: u64, depth: u64) -> Result<Recorded, (String, String)> {
+    record_after(ctx, sys, entry, depth, None)
+}
+
+/// `prior`: the same encoder object has already been used for another session (`init_at(prior.0)` followed by
+/// `prior.1` unrolls, against a solver that has since been restarted) - `init_at` documents that it deletes the
+/// old mutable state, so the recorded script must not depend on that history.
+pub fn record_after(ctx: &mut Context, sys: &TransitionSystem, entry: u64, depth: u64, prior: Option<(u64, u64)>) -> Result<Recorded, (String, String)> {
     crate::panics::guarded(|| {
         let mut rec = Recorder::new();
         let mut enc = UnrollSmtEncoding::new(ctx, sys, false);
+        if let Some((e0, d0)) = prior {
+            let mut scratch = Recorder::new();
+            enc.define_header(&mut scratch).expect("recorder never fails");
+            enc.init_at(ctx, &mut scratch, e0).expect("recorder never fails");
+            for _ in 0..d0 {
+                enc.unroll(ctx, &mut scratch).expect("recorder never fails");
+            }
+        }
         enc.define_header(&mut rec).expect("recorder never fails");
         enc.init_at(ctx, &mut rec, entry).expect("recorder never fails");
         for _ in 0..depth {
@@ -105,7 +120,15 @@ fn check_system(rep: &mut Report, mut ctx: Context, sys: &TransitionSystem, labe
     rep.count("programs", 1);
     let sys = sys.clone();
     let share = sharing_class(&ctx, &sys).join(" + ");
-    let r = match record(&mut ctx, &sys, entry, depth) {
+    // every fourth instance: the encoder object has a history (re-initialised after an earlier session at
+    // another entry step)
+    let prior = replay.get("index").and_then(|i| i.as_u64()).filter(|i| i % 4 == 2).map(|i| (if entry == 0 { 1 + i % 3 } else { (i / 4) % 2 * (entry + 2) }, 1 + (i / 4) % 3));
+    let label_owned = match prior {
+        Some((e0, d0)) => format!("{label} [encoder object re-used after init_at({e0}) + {d0} unroll(s)]"),
+        None => label.to_string(),
+    };
+    let label = label_owned.as_str();
+    let r = match record_after(&mut ctx, &sys, entry, depth, prior) {
         Ok(r) => r,
         Err((loc, msg)) => {
             rep.count("obligations", 1);
